@@ -1,4 +1,5 @@
 open BinNums
+open BinPosDef
 open Datatypes
 open Decimal
 open Nat
@@ -13,7 +14,24 @@ module Pos :
 
   val pred_double : positive -> positive
 
+  type mask = Pos.mask =
+  | IsNul
+  | IsPos of positive
+  | IsNeg
+
+  val succ_double_mask : mask -> mask
+
+  val double_mask : mask -> mask
+
+  val double_pred_mask : positive -> mask
+
+  val sub_mask : positive -> positive -> mask
+
+  val sub_mask_carry : positive -> positive -> mask
+
   val mul : positive -> positive -> positive
+
+  val size_nat : positive -> nat
 
   val compare_cont : comparison -> positive -> positive -> comparison
 
